@@ -383,6 +383,8 @@ func scenarios() {
 			s.Body = scEndVsWork
 		case "closeuser":
 			s.Body = scCloseVsUser(paths[f[1]])
+		case "refused":
+			s.Body = scRefused(paths[f[1]], f[2])
 		default:
 			return nil
 		}
@@ -395,7 +397,7 @@ func main() {
 	if c == nil {
 		return
 	}
-	c.Rule("E1: real frps on the virtual network and clock; scripted client behaviours (answers every request / never answers / offers dead or surplus connections); every schedule with at most B deviations of user arrivals, work-connection arrivals, proxy close and session end on four accept paths (direct, group, tcpmux muxer, visitor listener); non-trivial = distinct end state / observation trace")
+	c.Rule("E1: real frps on the virtual network and clock; scripted client behaviours (answers every request / never answers / offers dead or surplus connections); every schedule with at most B deviations of user arrivals, work-connection arrivals, proxy close and session end on four accept paths; a user turned away by a new-user-connection plugin (reject / plugin failure) on each path is closed and the next user served (direct, group, tcpmux muxer, visitor listener); non-trivial = distinct end state / observation trace")
 	b := drv.Pick(c, 2, 3)
 	type run struct {
 		s string
@@ -403,7 +405,7 @@ func main() {
 	}
 	runs := []run{{"pool/p0m5", 1}, {"pool/p1m5", 1}, {"pool/p2m1", 1}, {"pool/p7m5", 1}, {"deadpool", b}, {"endwork", b}}
 	for _, p := range []string{"direct", "group", "tcpmux", "visitor"} {
-		runs = append(runs, run{"users2/" + p, drv.Pick(c, 1, 2)}, run{"nowork/" + p, 1}, run{"nowork3/" + p, 1}, run{"closeuser/" + p, b})
+		runs = append(runs, run{"users2/" + p, drv.Pick(c, 1, 2)}, run{"nowork/" + p, 1}, run{"nowork3/" + p, 1}, run{"closeuser/" + p, b}, run{"refused/" + p + "/reject", 1}, run{"refused/" + p + "/error", 1})
 	}
 	if !c.Quick() {
 		runs = append(runs, run{"users3/direct", 2}, run{"users3/tcpmux", 2})
